@@ -6,8 +6,9 @@
 (*   a, b : atoms        [has, v]                                          *)
 (*   l    : list         [has, v \in Seq(Elem)]                            *)
 (*   s    : set          [has, v \subseteq Elem]                           *)
-(*   n    : nested model [has, tag, p, q]  (tag: class in an inheritance   *)
-(*                        chain 1 <- 2; p, q optional atoms)               *)
+(*   n    : nested model [has, tag, p, q, r]  (tag: class in an            *)
+(*                        inheritance chain 1 <- 2; p, q optional atoms;   *)
+(*                        r an optional atom only class 2 declares)        *)
 (* "has = FALSE" is the documented None = missing.  Falsy values ("0",     *)
 (* "F", <<>>, {}) are ordinary provided values.                            *)
 (*                                                                         *)
@@ -22,7 +23,7 @@
 (***************************************************************************)
 EXTENDS Naturals, Sequences, FiniteSets, SequencesExt, TLC, Json, IOUtils
 
-CONSTANTS AVals, BVals, LVals, SVals, PVals, QVals, Tags,   \* value universes per field
+CONSTANTS AVals, BVals, LVals, SVals, PVals, QVals, RVals, Tags,   \* value universes per field
           PairsOnly,   \* TRUE: one initial state per pair (z = Empty), for a richer universe
           Stride       \* export every Stride-th pair
 
@@ -32,11 +33,12 @@ Given(x)  == [has |-> TRUE, v |-> x]
 AtomU(V)  == {Absent("")} \cup {Given(x) : x \in V}
 ListU     == {Absent(<<>>)} \cup {Given(x) : x \in LVals}
 SetU      == {Absent({})} \cup {Given(x) : x \in SVals}
-NestU     == {[has |-> FALSE, tag |-> 0, p |-> Absent(""), q |-> Absent("")]}
-             \cup {[has |-> TRUE, tag |-> t, p |-> p, q |-> q] : t \in Tags, p \in AtomU(PVals), q \in AtomU(QVals)}
+NestU     == {[has |-> FALSE, tag |-> 0, p |-> Absent(""), q |-> Absent(""), r |-> Absent("")]}
+             \cup {x \in [has : {TRUE}, tag : Tags, p : AtomU(PVals), q : AtomU(QVals), r : AtomU(RVals)] :
+                      x.tag = 1 => ~x.r.has}        \* only class 2 declares r
 Universe  == [a : AtomU(AVals), b : AtomU(BVals), l : ListU, s : SetU, n : NestU]
 Empty     == [a |-> Absent(""), b |-> Absent(""), l |-> Absent(<<>>), s |-> Absent({}),
-              n |-> [has |-> FALSE, tag |-> 0, p |-> Absent(""), q |-> Absent("")]]
+              n |-> [has |-> FALSE, tag |-> 0, p |-> Absent(""), q |-> Absent(""), r |-> Absent("")]]
 
 CONFLICT == "conflict"
 
@@ -52,8 +54,9 @@ MSet(x, y) ==
 MNest(x, y, ow) ==
     IF ~y.has THEN [c |-> FALSE, v |-> x]
     ELSE IF ~x.has THEN [c |-> FALSE, v |-> y]
-    ELSE LET p == MAtom(x.p, y.p, ow) q == MAtom(x.q, y.q, ow) IN
-         [c |-> p.c \/ q.c, v |-> [has |-> TRUE, tag |-> x.tag, p |-> p.v, q |-> q.v]]
+    ELSE LET p == MAtom(x.p, y.p, ow) q == MAtom(x.q, y.q, ow) r == MAtom(x.r, y.r, ow) IN
+         \* the result has the left class; a value of the subclass-only field is kept all the same
+         [c |-> p.c \/ q.c \/ r.c, v |-> [has |-> TRUE, tag |-> x.tag, p |-> p.v, q |-> q.v, r |-> r.v]]
 
 Merge(x, y, ow) ==
     LET a == MAtom(x.a, y.a, ow) b == MAtom(x.b, y.b, ow) n == MNest(x.n, y.n, ow) IN
@@ -69,7 +72,7 @@ Merge3R(x, y, z, ow) == LET m == Merge(y, z, ow) IN IF m.c THEN [c |-> TRUE, v |
 OnlyEqualClashes(x, y) ==
     LET eqA(f, g) == (f.has /\ g.has) => f.v = g.v IN
     /\ eqA(x.a, y.a) /\ eqA(x.b, y.b)
-    /\ (x.n.has /\ y.n.has) => (eqA(x.n.p, y.n.p) /\ eqA(x.n.q, y.n.q))
+    /\ (x.n.has /\ y.n.has) => (eqA(x.n.p, y.n.p) /\ eqA(x.n.q, y.n.q) /\ eqA(x.n.r, y.n.r))
 
 (* ---- one initial state per triple ------------------------------------------------ *)
 VARIABLES x, y, z
@@ -82,6 +85,7 @@ Provided(w) ==      \* all values a partial provides, as (field, value) pairs
     (IF w.a.has THEN {<<"a", w.a.v>>} ELSE {}) \cup (IF w.b.has THEN {<<"b", w.b.v>>} ELSE {})
     \cup (IF w.n.has /\ w.n.p.has THEN {<<"n.p", w.n.p.v>>} ELSE {})
     \cup (IF w.n.has /\ w.n.q.has THEN {<<"n.q", w.n.q.v>>} ELSE {})
+    \cup (IF w.n.has /\ w.n.r.has THEN {<<"n.r", w.n.r.v>>} ELSE {})
 
 LeftId  == \A ow \in BOOLEAN : Merge(Empty, x, ow) = [c |-> FALSE, v |-> x]
 RightId == \A ow \in BOOLEAN : Merge(x, Empty, ow) = [c |-> FALSE, v |-> x]
